@@ -95,7 +95,7 @@ def group_main():
 
         pool = workers.Pool(fn, nworkers)
         try:
-            pool.run([{"id": i} for i in req["indices"]], lambda job, res: emit(res), limit_s=limit)
+            pool.run([{"id": i} for i in req["indices"]], lambda job, res: emit(res), limit_s=limit, epoch=req.get("epoch", 150))
         finally:
             pool.close()
     elif mode == "exec_seq":
